@@ -5,6 +5,8 @@ CONSTANTS
   MaxRegens = 5
   Invalid = {}
   Mode = "trylock"
+  Dirs = {"main"}
+  WatchDirs = "rearm"
   Kinds = {"write"}
 INVARIANTS Converges
 VIEW View
